@@ -65,13 +65,13 @@ class C09(Pipeline):
     mc = [("ChainHistory_mc", "ChainHistory_mc", ("quick", "thorough")),
           ("ChainHistory_mc", "ChainHistory_mc_deep", ("thorough",))]
     gens = [Gen("ChainHistoryGen9", "ChainHistoryGen9_diag", "bfs", tiers=("quick",), timeout=300),
-            Gen("ChainHistoryGen9", "ChainHistoryGen9_full", "bfs", tiers=("thorough",), timeout=1200)]
+            Gen("ChainHistoryGen9", "ChainHistoryGen9_full", "bfs", tiers=("thorough",), timeout=1200, cap=7000)]
     driver_pkg = "drivers/chainhistory"
     driver_test = "TestDriveNoAbort"
     trace_module = "ChainHistoryTrace"
     min_histories = 500
     quick_cap = 4000
-    thorough_cap = 9000
+    thorough_cap = 100000     # the seeded sample of the full product is taken per generator (cap above): the gate / governance histories are always kept
     tier_env = {"quick": {}, "thorough": {"VERIF_CH_LONG": "1"}}
     assumptions = [
         "full application (app.New) driven through InitChain / FinalizeBlock / Commit with really signed transactions; every history runs on a fork of one prepared world per driver process (4 bonded validators, two active EVM chains, external accounts, keep-alives, relayer fees, treasury fees, bridged ERC-20, light node sale contract, a job, a user contract, a factory denom, a light node license; height 280); governance-only set-up goes through the modules' proposal handlers",
@@ -95,7 +95,8 @@ class C09(Pipeline):
         return super().execute(tier)
 
     def extra_histories(self, tier):
-        return copy.deepcopy(GOV)
+        gate = [[{"act": "Prepare", "args": {"stage": s, "hclass": "other"}}, {"act": "Gate", "args": {"n": 0}}, {"act": "Run", "args": {"n": 0}}] for s in STAGES]
+        return copy.deepcopy(GOV) + (gate if tier == "thorough" else [])
 
     def drive(self, histories):
         t0 = time.time()
